@@ -426,7 +426,7 @@ function _indent(str: string, levels: number, indentFirst: boolean): string {
 
 /** Make a string for a stringified dict key, with indentation */
 function _makeKeyString(key: string, level: number) {
-  return repeatString(JSON_INDENT, level) + '"' + key + '": ';
+  return repeatString(JSON_INDENT, level) + JSON.stringify(key) + ': ';
 }
 
 /** Shift all positions in given ranges by same amount */
